@@ -255,7 +255,10 @@ fn format_timestamp_function(
         )));
     }
 
-    let dt = DateTime::from_timestamp(timestamp as i64, 0)
+    // a value above i64::MAX must not wrap into a date before 1970
+    let dt = i64::try_from(timestamp)
+        .ok()
+        .and_then(|seconds| DateTime::from_timestamp(seconds, 0))
         .ok_or_else(|| tera::Error::msg("Invalid timestamp"))?
         .with_timezone(&Utc);
     let formatted = dt.format(chrono_format).to_string();
